@@ -210,6 +210,17 @@ def other_case(ctx, case, monitors):
     env = envzoo.make_other(cfg)
     torch.manual_seed(seed)
     td_in = env.generator(batch_size=[B])
+    if case.get("family") == "boundary" and name == "smtwtp":
+        # integer-valued instance with jobs of processing time exactly 0 (a boundary of the documented range)
+        g_ = torch.Generator().manual_seed(seed)
+        pt = torch.randint(0, 6, td_in["job_process_time"].shape, generator=g_).float()
+        pt[:, 0] = 0
+        pt[torch.arange(B), torch.randint(1, pt.shape[1], (B,), generator=g_)] = 0.0
+        td_in["job_process_time"] = pt
+        td_in["job_due_time"] = torch.randint(0, 12, pt.shape, generator=g_).float() * (torch.arange(pt.shape[1]) > 0)
+    if case.get("family") == "handbuilt" and name == "mdpp":
+        # hand-supplied instance: action_mask encodes only the keep-out layout, probing ports live in the separate probe map
+        td_in["action_mask"] = ~td_in["keepout"].bool() if "keepout" in td_in.keys() else td_in["action_mask"] | td_in["probe"].bool()
     if case.get("family") == "mixed_quota" and name in ("flp", "mcp"):
         key = "to_choose" if name == "flp" else "n_sets_to_choose"
         q = td_in[key].clone()
@@ -414,3 +425,60 @@ def other_case(ctx, case, monitors):
                 ctx.evaluation(); ctx.count("c03_rewards_checked"); ctx.nontrivial_case(dict(i=insts[b], a=acts))
                 if abs(got - ref) > tol_reward(ref):
                     ctx.violation(sig_of(cfg, q="reward"), f"reward {got} != covered weight {ref}", dict(row=b, inst=insts[b], actions=acts))
+
+
+# ==========================================================================================
+# FFSP in multi-start (POMO) mode: rows s*B+b use the s-th permutation of the machine visiting order
+# ==========================================================================================
+def ffsp_pomo_case(ctx, case, monitors):
+    import math as _m
+
+    from rl4co.utils.ops import batchify
+    from vlib.episode import choose, row_done
+
+    cfg, B, seed, Sn = case["cfg"], case["B"], case["s"], case["starts"]
+    env = envzoo.make_other(cfg)
+    torch.manual_seed(seed)
+    td_in = env.generator(batch_size=[B])
+    insts = [S.FlowShop.extract(td_in, b, cfg["stages"], cfg["mas"]) for b in range(B)]
+    Sn = min(Sn, _m.factorial(cfg["mas"]))
+    td = env.reset(td_in.clone())
+    td = batchify(td, Sn)
+    td = env.pre_step(td)
+    R = B * Sn
+    gen = torch.Generator().manual_seed(seed)
+    names = [["uniform", "first_true", "last_true"][i % 3] for i in range(R)]
+    actions, t = [], 0
+    bound = max(S.FlowShop.step_bound(i) for i in insts) + 5
+    ctx.count("episodes")
+    ctx.count("c07_ffsp_multistart_runs")
+    while not bool(row_done(td).all()) and t < bound:
+        mask = td["action_mask"].reshape(R, -1).bool()
+        if bool((~mask.any(-1)).any()):
+            ctx.evaluation()
+            ctx.violation(sig_of(cfg, q="dead_end", mode="multistart"), f"FFSP multi-start: a row has no feasible action at step {t}", dict(B=B, starts=Sn))
+            return
+        a = choose(names, mask, td, gen)
+        actions.append(a.clone())
+        td.set("action", a)
+        td = env.step(td)["next"]
+        t += 1
+    if not bool(row_done(td).all()):
+        ctx.evaluation()
+        ctx.violation(sig_of(cfg, q="step_bound", mode="multistart"), f"FFSP multi-start episode not finished after {t} steps", dict(B=B, starts=Sn))
+        return
+    rew = td["reward"].reshape(R) if "reward" in td.keys() else None
+    for r in range(R):
+        b = r % B
+        sch = td["schedule"][r].tolist()
+        v, mk = S.FlowShop.schedule_violations(insts[b], sch)
+        ctx.evaluation()
+        ctx.count("c07_schedules_checked")
+        ctx.count("c07_ffsp_multistart_rows")
+        for rule, info in v:
+            ctx.violation(sig_of(cfg, rule=rule, flatten=cfg["flatten"], mode="multistart"), f"invalid flow-shop schedule in multi-start mode (row {r} = start {r // B} of instance {b}): {rule}: {info}", dict(row=r, inst=insts[b], schedule=sch))
+            return
+        if rew is not None and float(rew[r]) != -float(mk):
+            ctx.violation(sig_of(cfg, q="reward", rule="makespan", mode="multistart"), f"reward {float(rew[r])} != -makespan {-mk} (row {r})", dict(row=r, inst=insts[b]))
+            return
+        ctx.nontrivial_case(dict(i=insts[b], s=sch))
